@@ -382,8 +382,9 @@ def run_property(prop, tier, seed):
         print("KNOWN-FINDING: property=%s %s (harness %s)" % (prop, kf.get("what", ""), h))
     confirmed = []
     unreproduced = []
-    # replay at most 3 violating harnesses (each replay is a fresh solver run asking for a model)
-    for h in violations[:3]:
+    # replay at most 2 violating harnesses, cheapest first (each replay is a fresh solver run asking
+    # for a model); the others are listed in the evidence
+    for h in sorted(violations, key=lambda x: results[x].duration_s)[:2]:
         r = results[h]
         src, vecs = kani.concrete_playback(h)
         native = {}
